@@ -125,6 +125,42 @@ def run(ctx):
         add_block(u)
     for k in range(300 if ctx.quick else 60000):
         add_block(bitarray([rng.getrandbits(1) for _ in range(144)]), impolite=k % 3 == 0, little=k % 4 == 1, frozen=k % 5 == 2)
+    # aimed by the learned tables: legal blocks whose transmitted stream holds a long run of equal dibits (the interleaver puts
+    # dibits of points four apart next to each other) - random blocks never exceed a run of about twelve
+    Tt, PD, Iv = data["T"], data["PD"], data["I"]
+    nrun = 0
+    for dv in sorted({x for pr in PD for x in pr}):
+        for start in range(0, 98 - 16, 5):
+            for L in (16, 22, 30):
+                if start + L > 98:
+                    continue
+                need = {}                                   # point index -> set of halves that must carry dibit dv
+                for j in range(start, start + L):
+                    need.setdefault(Iv[j] // 2, set()).add(Iv[j] % 2)
+                allowed = {q: {pt for pt in range(16) if all(PD[pt][h] == dv for h in hs)} for q, hs in need.items()}
+                # forward reachability over (position, state = previous tribit), then a random feasible walk backwards
+                reach = [set() for _ in range(50)]
+                reach[0] = {0}
+                for q in range(49):
+                    for st in reach[q]:
+                        for t in (range(8) if q < 48 else (0,)):
+                            if q not in allowed or Tt[st][t] in allowed[q]:
+                                reach[q + 1].add(t)
+                if not reach[49]:
+                    continue
+                tri, cur = [0] * 49, rng.choice(sorted(reach[49]))
+                for q in range(48, -1, -1):
+                    tri[q] = cur
+                    prevs = [st for st in reach[q] if (q not in allowed or Tt[st][cur] in allowed[q])]
+                    cur = rng.choice(prevs)
+                b = bitarray()
+                for t in tri[:48]:
+                    b += int2ba(t, length=3)
+                add_block(b)
+                nrun += 1
+    ctx.note("blocks_with_long_runs_of_equal_dibits", nrun)
+    if nrun < 20:
+        raise core.MachineryError(f"only {nrun} blocks with long dibit runs could be constructed")
     for k in range(40):         # the same few blocks again and again, results damaged in between
         add_block(raw_blocks[k % 5][0].copy(), impolite=True)
     # the two permutations composed directly (the result of one handed straight to the other, earlier results kept)
